@@ -760,6 +760,11 @@ pub fn run_c11_grid(r: &mut Runner, thorough: bool) {
         s.apply(&exec(&adm(), ExecuteMsg::UpdateConfig { native_chain_config: None, protocol_chain_config: Some(pc), protocol_fee_config: None, monitors: None, batch_period: None }, vec![])).out.ok
     };
     let mut seeds = vec![("lst_positive", seed_two_stakes(&k)), ("lst_zero", seed_resumed(&k)), ("big_totals", big_seed(&k)), ("protocol_prefix_moved", seed_two_stakes(&k))];
+    // both chains use one address prefix (an Initia L1 / rollup pair): the same string may be configured as
+    // native staker and as protocol treasury — two different accounts on two chains
+    if let Some(s) = try_seed(|| seed_two_stakes(&K::k2())) {
+        seeds.push(("shared_prefix_treasury_is_staker", s));
+    }
     if thorough {
         seeds.push(("rate_up", seed_rate_up(&k)));
         seeds.push(("rate_down", seed_rate_down(&k)));
@@ -772,7 +777,11 @@ pub fn run_c11_grid(r: &mut Runner, thorough: bool) {
     let mut outcomes: BTreeSet<String> = BTreeSet::new();
     for (name, s0) in &seeds {
         for rate in &rates {
-            for tre in [None, Some(p20("tre"))] {
+            let mut treasuries = vec![None, Some(p20("tre"))];
+            if *name == "shared_prefix_treasury_is_staker" {
+                treasuries = vec![Some(n20(&K::k2(), "staker")), Some(n20(&K::k2(), "collector"))];
+            }
+            for tre in treasuries {
                 let mut s = s0.clone();
                 let ap = s.apply(&exec(
                     &adm(),
